@@ -99,6 +99,7 @@ type Exec struct {
 	InitGhost  map[string]string
 	oldNames   map[string]string
 	backings   map[string]int
+	scanReader map[string]string // scanner ref -> reader ref
 	specAxiomsLoaded bool
 	selfFn     *ssa.Function
 	entryOld   *State
@@ -124,7 +125,7 @@ func NewExec(prog *load.Program, cs *contract.Set, tables map[string]Val) *Exec 
 		typeIDs: map[string]int{}, promoted: map[*Obj]string{}, mapObjs: map[string]*Obj{}, mapOrigin: map[*Obj]mapOrig{},
 		globals: map[string]*Obj{}, globalInit: map[string]Val{}, globalInitPC: map[string][]string{},
 		GlobalWrites: map[string]bool{}, GlobalReads: map[string]bool{}, pureAxioms: map[string]bool{},
-		NoLemmaAxioms: map[string]bool{}, FuncTables: map[string]*FuncTable{}, RegexpSubexp: map[string]int{}, backings: map[string]int{}, GhostSort: map[string]string{}, oldNames: map[string]string{}, tableArrs: map[string]string{},
+		NoLemmaAxioms: map[string]bool{}, FuncTables: map[string]*FuncTable{}, RegexpSubexp: map[string]int{}, backings: map[string]int{}, scanReader: map[string]string{}, GhostSort: map[string]string{}, oldNames: map[string]string{}, tableArrs: map[string]string{},
 		MaxPaths: 20000, UsedTrusted: map[string]bool{}, UsedContracts: map[string]bool{}, Inlined: map[string]bool{},
 	}
 }
